@@ -96,7 +96,16 @@ def configs():
         reads="hist-index")
     add("history-ties", ["-a", "first=ACGTACGTAA", "-a", "second=ACGTACGTCC", "--info-file", "{d}/info.tsv", "-o", "{d}/d-{{name}}.fq"],
         reads="hist-ties")
+    # output format from an upper-case extension; FASTA headers that contain '>' (interleaved input, single-record chunks)
+    add("fasta-upper-ext", ["-a", f"a1={A1}", "-o", "{d}/OUT.FA"])
+    add("interleaved-fasta-gt", ["--interleaved", "-a", f"a1={A1}", "-A", f"b2={A2}", "-o", "{d}/out.fa"], layout="interleaved", fmt="fasta",
+        reads="gt")
     return C
+
+
+def reads_gt():
+    """R1 headers of every other pair contain '>' (R2 headers do not)."""
+    return [((n.split()[0] + " sub=A>G") if i % 2 == 0 else n, s_, q) for i, (n, s_, q) in enumerate(reads_single())]
 
 
 def reads_hist_index():
@@ -126,8 +135,11 @@ def reads_rc():
 
 
 def write_inputs(cfg, wd):
-    r1 = {"rc": reads_rc, "hist-index": reads_hist_index, "hist-ties": reads_hist_ties}.get(cfg.get("reads"), reads_single)()[: cfg["nreads"]]
+    r1 = {"rc": reads_rc, "hist-index": reads_hist_index, "hist-ties": reads_hist_ties, "gt": reads_gt}.get(
+        cfg.get("reads"), reads_single)()[: cfg["nreads"]]
     r2 = reads_r2()[: cfg["nreads"]]
+    if cfg.get("reads") == "gt":
+        r2 = [(n.split()[0], s_, q) for n, s_, q in r2]
     txt = clih.fastq_text if cfg["fmt"] == "fastq" else clih.fasta_text
     ext = "fq" if cfg["fmt"] == "fastq" else "fa"
     if cfg["layout"] == "single":
@@ -286,6 +298,7 @@ def plan(tier):
         T.append((ix["interleaved-fasta"], 2, 40, None, "D", 1))  # buffer so small that chunks hold single records
         T.append((ix["interleaved"], 2, 40, None, "D", 1))
         T.append((ix["linked-revcomp"], 2, 4, None, "D", 1))
+        T.append((ix["interleaved-fasta-gt"], 2, 40, None, "D", 1))
         T.append((ix["history-index"], 2, 4, None, "D", 1))
         T.append((ix["history-ties"], 2, 4, None, "D", 1))
         T.append((ix["single"], 2, 3, 1, "D", 1))
@@ -298,6 +311,7 @@ def plan(tier):
         T.append((ix["interleaved-fasta"], 2, 40, None, "D", 2))
         T.append((ix["interleaved"], 2, 40, None, "D", 2))
         T.append((ix["linked-revcomp"], 3, 5, None, "D", 2))
+        T.append((ix["interleaved-fasta-gt"], 2, 40, None, "D", 2))
         T.append((ix["history-index"], 3, 5, None, "D", 2))
         T.append((ix["history-ties"], 3, 5, None, "D", 2))
         for n in ("single", "single-redirects", "paired", "demux"):
